@@ -35,8 +35,9 @@ CLAIM = dict(
     "(full block system <=> Schur-complement system + flux formula, W diagonal invertible), pressure_equiv (under 1^T D = 0, zero-mean "
     "source, zero last rhs entry: reduced system <=> pinned pure-pressure system with p_k = 0, lambda = 0), full_iff_pinned (the three "
     "formulations have the same solution SET), full_system_unique (ordered field, positive weights, kernel of D^T = constants: at most "
-    "one solution, hence THE same flux/pressure/multiplier; the kernel hypothesis for the FV grid - connectedness of the cell graph - is "
-    "an explicit hypothesis, not derived), full_system_homogeneous. BRIDGE to the executable model the driver runs (every matrix "
+    "one solution, hence THE same flux/pressure/multiplier), with the kernel hypothesis DERIVED for the finite-volume divergence of every "
+    "tensor grid with non-zero face areas (cell_graph_connected from C07's connectivity theorems, fv_kerDT_const from C06's div_column, "
+    "fv_full_system_unique), full_system_homogeneous. BRIDGE to the executable model the driver runs (every matrix "
     "tabulated from an entry formula over Q; eliminate_flux reads only the diagonal from the matrix handed in and D, D^T, the constant "
     "sub-block from the setup-time cache, as the code does): model_full_is_abstract / model_reduced_is_abstract / model_pinned_rows "
     "identify assembleFull, eliminateFlux, eliminateMultiplier with the abstract operators on Fin nf, Fin nc; model_linearSolve_sound: "
